@@ -333,7 +333,7 @@ for _p, _n in {"C01": 2400, "C02": 240, "C03": 6000, "C04": 3200, "C05": 12000, 
                "C12": 12000, "C13": 1600, "C14": 800, "C15": 800, "C16": 8000, "C17": 2400, "C18": 16000, "C19": 3000}.items():
     PROPS[_p]["quick_runs"] = _n
 for _p in ("C02", "C03", "C05"):
-    PROPS[_p]["passes"] = [{"variant": ""}, {"race": True, "variant": "race", "quick_runs": 120, "thorough_runs": 1200, "workers": 8}]
+    PROPS[_p]["passes"] = [{"variant": ""}, {"race": True, "variant": "race", "quick_runs": 120, "thorough_runs": 1200, "workers": 8, "quick_budget_s": 60}]
 for _p in ("C10", "C12"):
-    PROPS[_p]["passes"] = [{"variant": ""}, {"race": True, "variant": "race", "quick_runs": 160, "thorough_runs": 1600, "workers": 8}]
+    PROPS[_p]["passes"] = [{"variant": ""}, {"race": True, "variant": "race", "quick_runs": 160, "thorough_runs": 1600, "workers": 8, "quick_budget_s": 60}]
 PROPS["C20"]["passes"] = [{"variant": "modeA", "instrumented": True, "quick_runs": 6000}, {"race": True, "variant": "race", "quick_runs": 480, "thorough_runs": 4000, "workers": 8}]
